@@ -1,5 +1,6 @@
 import RtenVerif.Driver.Util
 import RtenVerif.Model.InPlace
+import RtenVerif.Model.InPlaceExec
 import RtenVerif.Generated.InPlaceOps
 
 namespace RtenVerif.Driver.C13
@@ -61,6 +62,44 @@ def handleLay (op : String) (ws : List String) : String :=
     | none => "err"
   | _, _, _ => "bad-request"
 
+/-- `exec <op> a= b= own=<ab> same=<0|1>`: which input buffer the node's output reuses. -/
+def handleExec (op : String) (ws : List String) : String :=
+  match (field "a" ws).bind parseShape, (field "b" ws).bind parseShape, field "own" ws, field "same" ws with
+  | some a, some b, some own, some same =>
+    let ips : List Nat := if RtenVerif.Generated.InPlaceOps.inPlaceOps.contains op then [0] else []
+    let comm := RtenVerif.Generated.InPlaceOps.commutativeOps.contains op
+    let isSame := same == "1"
+    let b := if isSame then a else b
+    -- a value fed to both operands has reference count 2 (and the ownership of operand a)
+    let ownA := own.startsWith "1"
+    let ownB := if isSame then ownA else own.endsWith "1"
+    match broadcastShapes a b with
+    | none => "reuse=na"
+    | some s =>
+      if numel s == 0 then "reuse=na"
+      else match graphReuse ips comm a b ownA ownB isSame with
+        | some 0 => "reuse=a"
+        | some _ => "reuse=b"
+        | none => "reuse=none"
+  | _, _, _, _ => "bad-request"
+
+def parseDim (w : String) : Option (Nat × Nat) :=
+  match w.splitOn ":" with
+  | [a, b] => do let x ← a.toNat?; let y ← b.toNat?; pure (x, y)
+  | _ => none
+
+/-- `cc dims=<size:stride,…> cap= axis= add=`: `has_capacity(axis, size + add)`. -/
+def handleCc (ws : List String) : String :=
+  match field "dims" ws, (field "cap" ws).bind String.toNat?, (field "axis" ws).bind String.toNat?,
+      (field "add" ws).bind String.toNat? with
+  | some ds, some cap, some axis, some add =>
+    match (ds.splitOn ",").mapM parseDim with
+    | some dims =>
+      let newSize := (RtenVerif.Layout.sizes dims).getD axis 0 + add
+      s!"cap={b01 (RtenVerif.Layout.hasCapacity dims cap axis newSize)}"
+    | none => "bad-request"
+  | _, _, _, _ => "bad-request"
+
 def handleCov (ws : List String) : String :=
   let names := match ws with
     | [w] => w.splitOn ","
@@ -73,6 +112,8 @@ def handle (line : String) : String :=
   | "cb" :: ws => handleCb ws
   | "bin" :: op :: ws => handleBin op ws
   | "lay" :: op :: ws => handleLay op ws
+  | "exec" :: op :: ws => handleExec op ws
+  | "cc" :: ws => handleCc ws
   | "cov" :: ws => handleCov ws
   | _ => "skip"
 
